@@ -132,3 +132,29 @@ func tracedResolve(p protocol.Protocol, suffix string, ops []*ref.Op, order []in
 	}
 	return rm, err, ta, false
 }
+
+// tracedResolveUpgrade is tracedResolve with a second protocol version (same parameters) taking over at upgradeAt (0 = none);
+// both versions share the trace applier.
+func tracedResolveUpgrade(p protocol.Protocol, suffix string, ops []*ref.Op, upgradeAt uint64) (rm *protocol.ResolutionModel, err error, ta *traceApplier, exceeded bool) {
+	if upgradeAt == 0 {
+		return tracedResolve(p, suffix, ops, nil)
+	}
+	v0 := hx.NewVersion(p, hx.VersionOpts{ParserOpts: hx.StrictResolution()})
+	p1 := p
+	p1.GenesisTime = upgradeAt
+	v1 := hx.NewVersion(p1, hx.VersionOpts{ParserOpts: hx.StrictResolution()})
+	ta = newTraceApplier(v0.Applier, len(ops))
+	v0.Applier, v1.Applier = ta, ta
+	pc := hx.NewClient(v0, v1)
+	defer func() {
+		if r := recover(); r != nil {
+			if _, ok := r.(budgetExceeded); ok {
+				exceeded = true
+				return
+			}
+			panic(r)
+		}
+	}()
+	rm, err = SUTResolve(pc, suffix, ops, nil)
+	return rm, err, ta, false
+}
